@@ -192,12 +192,16 @@ type C08Cell struct {
 	Consumers int    `json:"consumers"`
 	Bound     int    `json:"bound"`
 	CancelAny bool   `json:"cancel_any,omitempty"`
+	NoMatch   bool   `json:"no_match,omitempty"` // chosencases lists a tag no entry carries: nothing is ever delivered
 }
 
 func (c C08Cell) Name() string {
 	s := fmt.Sprintf("%s|limit=%d|passes=%d|E=%d|consumers=%d", c.Kind, c.Limit, c.Passes, c.Entries, c.Consumers)
 	if c.CancelAny {
 		s += "|cancel-any"
+	}
+	if c.NoMatch {
+		s += "|chosencases-match-nothing"
 	}
 	return s
 }
@@ -223,7 +227,11 @@ type c08run struct {
 func (r *c08run) scenario(x *vs.X) func(end, msg string) error {
 	c := r.cell
 	_ = afero.WriteFile(memfs, r.k.File, r.k.Render(c.Entries), 0o644)
-	p, err := newProvider(r.k.Conf(r.k, c.Limit, c.Passes))
+	conf := r.k.Conf(r.k, c.Limit, c.Passes)
+	if c.NoMatch {
+		conf["chosencases"] = []any{"nomatch"}
+	}
+	p, err := newProvider(conf)
 	r.cerr, r.drv = err, nil
 	if err != nil {
 		return func(end, msg string) error { return fmt.Errorf("ERROR: provider construction failed: %v", err) }
@@ -282,8 +290,11 @@ func (r *c08run) check(end, msg string, n int) error {
 	if c.CancelAny {
 		// cancelled at an arbitrary point: nobody may stay blocked (checked above), nothing beyond the bounds,
 		// what was delivered is a prefix of the file order, the result is nil or the cancellation
-		if !cancelLike(d.RunErr) {
+		if !cancelLike(d.RunErr) && !c.NoMatch {
 			return fmt.Errorf("RUNERR: cancelled provider returned %v", d.RunErr)
+		}
+		if c.NoMatch && len(got) > 0 {
+			return fmt.Errorf("COUNT: delivered %v although no entry carries a chosen tag", got)
 		}
 	} else if n >= 0 {
 		if len(got) != n {
@@ -361,7 +372,12 @@ func c08cells(thorough bool) []C08Cell {
 							}
 						}
 						out = append(out, C08Cell{Kind: k.Name, Limit: limit, Passes: passes, Entries: e, Consumers: cons, Bound: b})
-						if cons == 1 && e == 2 && (limit == 0 || limit == 3) && passes <= 2 && !(unb && buffered) {
+						if cons == 1 && e <= 2 && passes == 0 && (limit == 0 || limit == 3) && (k.Type == "uri" || k.Type == "uripost" || k.Type == "raw" || k.Type == "http/json" || k.Type == "http" || k.Name == "grpc/json") {
+						// a filter that matches nothing and no pass bound: the provider reads the file over and over
+						// (it polls, see vs.PollEvery) until the run is cancelled - at any point - and then it must return
+						out = append(out, C08Cell{Kind: k.Name, Limit: limit, Passes: passes, Entries: e, Consumers: cons, Bound: 1, CancelAny: true, NoMatch: true})
+					}
+					if cons == 1 && e == 2 && (limit == 0 || limit == 3) && passes <= 2 && !(unb && buffered) {
 							// a canceller thread: with one deviation the cancel lands at every scheduling point of the run
 							out = append(out, C08Cell{Kind: k.Name, Limit: limit, Passes: passes, Entries: e, Consumers: cons, Bound: 1, CancelAny: true})
 						}
